@@ -13,6 +13,7 @@ import (
 
 	"github.com/tailscale/setec/verifhook"
 
+	"verifsim/dbworld"
 	"verifsim/kernel"
 )
 
@@ -178,24 +179,24 @@ func TestWorker(t *testing.T) {
 	seenViol := map[string]bool{}
 	realSet, stubSet := map[string]bool{}, map[string]bool{}
 	start := time.Now()
+	// Engines share the budget by wall-clock time in proportion to their
+	// weights; each engine has its own run index, so (engine, index) names a
+	// run regardless of how fast the machine is.
+	spent := make([]time.Duration, len(cases))
+	count := make([]int, len(cases))
+	_ = weights
 	for k := 0; k < maxRuns && time.Since(start) < budget; k++ {
-		idx := uint64(worker + k*workers)
-		seed := kernel.Hash64(base, prop, idx)
-		// engine choice is a function of the index, not of the tape
 		ci := 0
-		tot := 0
-		for _, w := range weights {
-			tot += w
-		}
-		r := int(kernel.Hash64(base, "engine", idx) % uint64(tot))
-		for i, w := range weights {
-			if r < w {
+		for i := range cases {
+			if float64(spent[i])/float64(cases[i].Weight) < float64(spent[ci])/float64(cases[ci].Weight) {
 				ci = i
-				break
 			}
-			r -= w
 		}
 		c := cases[ci]
+		idx := uint64(worker + count[ci]*workers)
+		count[ci]++
+		seed := kernel.Hash64(base, prop+"/"+c.Engine, idx)
+		runStart := time.Now()
 		for _, x := range c.Real {
 			realSet[x] = true
 		}
@@ -203,6 +204,7 @@ func TestWorker(t *testing.T) {
 			stubSet[x] = true
 		}
 		res := runOne(t, c, kernel.NewTape(seed))
+		spent[ci] += time.Since(runStart) + time.Microsecond
 		if k == 0 {
 			sum.FirstSeed = seed
 		}
@@ -332,4 +334,17 @@ func doReplay(t *testing.T, path, outPath string) {
 		os.WriteFile(outPath, ob, 0o644)
 	}
 	fmt.Println(string(ob))
+}
+
+// TestGenGolden writes golden schema-v1 fixtures (one-off; see fixtures/README).
+func TestGenGolden(t *testing.T) {
+	dir := os.Getenv("VERIF_GEN_GOLDEN")
+	if dir == "" {
+		t.Skip()
+	}
+	for i := 0; i < 3; i++ {
+		if err := dbworld.GenGolden(dir, i); err != nil {
+			t.Fatal(err)
+		}
+	}
 }
